@@ -267,6 +267,17 @@ class SchemaGen:
                 self.use("pattern_map")
                 return {"type": "object", "patternProperties": {self.pick(["^[a-z]+$", "^x-"]): self.schema(d + 1)},
                         "additionalProperties": False}
+            if self.chance(0.25):
+                # keys constrained through propertyNames (a generated key newtype), values typed or free-form
+                self.use("keyed_map")
+                m = {"type": "object", "propertyNames": self.pick([{"pattern": self.pick(PATTERNS)[0]}, {"maxLength": 4},
+                                                                    {"minLength": 2, "pattern": "^[a-z]+$"}])}
+                k = self.r.randrange(3)
+                if k == 0:
+                    m["additionalProperties"] = self.schema(d + 1)
+                elif k == 1:
+                    m["additionalProperties"] = True
+                return m
             return {"type": "object", "additionalProperties": self.schema(d + 1)}
         self.use("struct")
         props, required = self.props(d)
